@@ -447,10 +447,10 @@ def pyStrip (s : Bytes) : Bytes := ((s.dropWhile isPySpace).reverse.dropWhile is
 
 def unknownBytes : Bytes := [117, 110, 107, 110, 111, 119, 110]   -- b"unknown"
 
-/-- `self.cidcoding = f"{registry.strip()}-{ordering.strip()}"`; `none` = the entry is absent or not a
+/-- `self.cidcoding = f"{registry.strip()}-{ordering.strip()}"` (separator regenerated from pdffont.py); `none` = the entry is absent or not a
 string (`b"unknown"` is used). -/
 def cidCoding (registry ordering : Option Bytes) : Bytes :=
-  pyStrip (registry.getD unknownBytes) ++ [45] ++ pyStrip (ordering.getD unknownBytes)
+  pyStrip (registry.getD unknownBytes) ++ Gen.CIDFont.CIDCODING_SEP ++ pyStrip (ordering.getD unknownBytes)
 
 /-- `default_width` of a horizontal font: `resolve1(spec.get("DW", 1000))`, replaced by the default when it
 is not a number (`none` = absent). -/
